@@ -8,7 +8,8 @@ From Coquelicot Require Import Coquelicot.
 From RV Require Import Base.RB Gen.GenC10Triplet Gen.GenC10Hem Gen.GenC10Merton Gen.GenC10Vg Gen.GenC10Cgmy Gen.GenC10Bs Gen.GenC10Exp Gen.GenC10Jump
   Gen.GenC09Hem Gen.GenC09Vg Gen.GenC09Trunc Model.LevyClosedForms Model.LevyExponent Proofs.C10_Triplet Proofs.C10_Exponent Proofs.C10_HemLK
   Proofs.C10_Cgmy Proofs.C10_VgLK Proofs.C10_Jump Proofs.C10_Reinit
-  Base.CxPair Gen.GenC10Cx Model.LevyExponentCx Proofs.C10_HemCx Proofs.C10_VgCx Proofs.C10_CxAxis.
+  Base.CxPair Gen.GenC10Cx Model.LevyExponentCx Proofs.C10_HemCx Proofs.C10_VgCx Proofs.C10_CxAxis
+  Gen.GenC10SetRep Proofs.C10_SetRepGen.
 Import ListNotations.
 Open Scope R_scope.
 
@@ -280,6 +281,36 @@ Theorem C10_kappa_is_generated_exponent :
      levy_exponent_c a sigma0 (vg_pj_c sigma nu theta) (minus_i_times s) = RtoC (kappa a sigma0 (vg_pj sigma nu theta) s)).
 Proof. split; [exact kappa_is_generated_hem | exact kappa_is_generated_vg]. Qed.
 
+(* --- wave 6 (seeded change C10_g): set_representation AS GENERATED with its exception paths and statement order.
+       set_representation_gen INF m1 fv a rep target : bool * (R * R) = (did the call raise?, (self.a, self.representation) afterwards) is
+       emitted from the source of LevyTriplet.set_representation (plug-in py2coq_c10set: assignments executed in source order, the
+       dispatch through the dict literal self._drift_mapping of __init__, *_raises = the exception paths of the four conversions).
+   (1) a call that raises leaves (a, representation) unchanged -- for ALL arguments: the raise happens before any assignment;
+   (2) between admissible representations the call never raises and is the hand model set_representation of the theorems above; a
+       request that is not admissible (ZERO for infinite variation) raises;
+   (3) sequences on one triplet whose refused requests are caught by the caller (run_gen): any admissible request after them gives what
+       it gives on the original triplet, asking for the original representation restores the state, and the canonical drift (hence
+       the center drift = first cumulant of the triplet) of the state is that of the original triplet. *)
+Theorem C10_refused_conversion_leaves_state : forall INF m1 fv a rep target,
+  fst (set_representation_gen INF m1 fv a rep target) = true -> snd (set_representation_gen INF m1 fv a rep target) = (a, rep).
+Proof. exact set_representation_gen_refused_unchanged. Qed.
+Theorem C10_generated_set_representation_is_model : forall INF m1 fv r' t, valid_rep fv (t_rep t) ->
+  (valid_rep fv r' ->
+     set_representation_gen INF m1 fv (t_a t) (rep_code (t_rep t)) (rep_code r')
+     = (false, (t_a (set_representation INF m1 fv r' t), rep_code (t_rep (set_representation INF m1 fv r' t))))) /\
+  (~ valid_rep fv r' ->
+     set_representation_gen INF m1 fv (t_a t) (rep_code (t_rep t)) (rep_code r') = (true, (t_a t, rep_code (t_rep t)))).
+Proof. intros INF m1 fv r' t Ht. split; intros Hr; [apply set_representation_gen_admissible | apply set_representation_gen_refused]; assumption. Qed.
+Theorem C10_conversions_with_refused_requests : forall INF m1 fv rs t, valid_rep fv (t_rep t) ->
+  (forall r, valid_rep fv r -> run_gen INF m1 fv (rs ++ [r]) (state_of t) = state_of (set_representation INF m1 fv r t)) /\
+  run_gen INF m1 fv (rs ++ [t_rep t]) (state_of t) = state_of t /\
+  run_gen INF m1 fv rs (state_of t) = state_of (set_representations INF m1 fv (filter (valid_repb fv) rs) t) /\
+  canonical_of INF m1 fv (set_representations INF m1 fv (filter (valid_repb fv) rs) t) = canonical_of INF m1 fv t.
+Proof.
+  intros INF m1 fv rs t Ht. split; [intros r Hr; apply run_gen_path_independent; assumption|].
+  split; [apply run_gen_reversible; assumption|]. split; [apply run_gen_spec; assumption | apply run_gen_center_drift; assumption].
+Qed.
+
 (* non-vacuity: a concrete chain of conversions *)
 Example C10_nonvacuous : forall INF m1,
   t_a (set_representation INF m1 true CENTER (set_representation INF m1 true ONEONE (mkTriplet 5 ZERO)))
@@ -301,6 +332,12 @@ Example C10_cx_nonvacuous :
   psi_c 0 0 (hem_pj_c 1 (1 / 2) 2 3) 1 = (- (3 / 20), 1 / 20) /\
   0 < vg_logarg 1 2 0 (1 / 2) /\ vg_A 1 2 1 = 2 /\ vg_B 2 (1 / 2) 1 = - 1.
 Proof. exact cx_example. Qed.
+
+(* non-vacuity (the scenario of the seeded change): infinite variation, CENTER, a = 5: ZERO is refused and nothing changes, TILDE is then granted *)
+Example C10_refused_nonvacuous : forall INF m1,
+  set_representation_gen INF m1 false 5 (rep_code CENTER) (rep_code ZERO) = (true, (5, rep_code CENTER)) /\
+  run_gen INF m1 false [ZERO; TILDE] (state_of (mkTriplet 5 CENTER)) = (5 - (m1 (- INF) (-1) + m1 1 INF), rep_code TILDE).
+Proof. exact set_representation_gen_example. Qed.
 
 Print Assumptions C10_conversions_path_independent.
 Print Assumptions C10_conversions_any_sequence.
@@ -332,7 +369,11 @@ Print Assumptions C10_hem_char_exponent.
 Print Assumptions C10_vg_char_exponent_closed_form_partial.
 Print Assumptions C10_vg_char_exponent_re_partial.
 Print Assumptions C10_kappa_is_generated_exponent.
+Print Assumptions C10_refused_conversion_leaves_state.
+Print Assumptions C10_generated_set_representation_is_model.
+Print Assumptions C10_conversions_with_refused_requests.
 Print Assumptions C10_nonvacuous.
 Print Assumptions C10_vg_nonvacuous.
 Print Assumptions C10_hem_jump_nonvacuous.
 Print Assumptions C10_cx_nonvacuous.
+Print Assumptions C10_refused_nonvacuous.
